@@ -4,9 +4,11 @@ import (
 	"encoding/json"
 	"fmt"
 	"reflect"
+	"regexp"
 	"strings"
 
 	"github.com/corazawaf/coraza/v3/debuglog"
+	corazahttp "github.com/corazawaf/coraza/v3/http"
 	"github.com/corazawaf/coraza/v3/verifrt"
 	"github.com/corazawaf/coraza/v3/verifrt/simos"
 )
@@ -175,6 +177,11 @@ func c20Run(w *verifrt.World, tier Tier) *RunResult {
 	res.Sample = sc
 	js, _ := json.Marshal(sc)
 	res.Hash = hash64(string(js))
+	if w.Work.Draw(4) == 0 {
+		c20HTTP(w, sc, res)
+		return res
+	}
+	res.count("direct_api_scenarios", 1)
 
 	base := c20Execute(w, sc, nil, -1, true)
 	if base.BuildErr != "" {
@@ -368,6 +375,184 @@ func init() {
 		Real:      []string{"BodyBuffer, multipart/urlencoded/JSON processors, Transaction.Close, serial and concurrent audit writers with real log.Logger, formatters"},
 		Stub:      []string{"file system (simos) with per-operation fault points", "clock", "random source", "sync.Pool policy"},
 		Unchecked: []string{"wording of error messages", "multi-fault outcomes beyond panic-freedom and recycled-object equality", "torn / lost writes and dirty restart: coraza recovers nothing from disk"},
-		MustHit:   []string{"fault_create-fail", "fault_write-error", "fault_short-write", "fault_read-error", "fault_close-error", "fault_remove-error", "fault_mkdir-error", "early_termination_points", "multi_fault_runs"},
+		MustHit:   []string{"direct_api_scenarios", "middleware_scenarios", "middleware_fault_points", "fault_create-fail", "fault_write-error", "fault_short-write", "fault_read-error", "fault_close-error", "fault_remove-error", "fault_mkdir-error", "early_termination_points", "multi_fault_runs"},
 	})
+}
+
+// ---------------------------------------------------------------- through the net/http middleware
+
+type c20HTTPExec struct {
+	BuildErr string
+	Panic    string
+	Invoked  bool
+	Status   int
+	Body     string
+	Logs     int
+	Left     []string
+	Fired    string
+	FiredOp  simos.Op
+	Ops      []simos.Op
+	Base     int
+	Probe    *Outcome
+	LogText  string
+	ReadErr  bool // the handler got an error while reading the request body
+}
+
+func c20ExecHTTP(w *verifrt.World, sc *c20Scenario, decide func(d *simos.FS, base int, op *simos.Op) string) *c20HTTPExec {
+	ex := &c20HTTPExec{}
+	disk := simos.ResetDisk()
+	disk.MkdirAllQuiet(simos.Root + "/upload")
+	disk.MkdirAllQuiet(simos.Root + "/audit/data")
+	w.PoolPolicy = verifrt.PoolLIFO
+	h, err := buildWAF(sc.Config)
+	if err != nil {
+		ex.BuildErr = err.Error()
+		return ex
+	}
+	defer h.Close()
+	ex.Base = len(disk.Ops)
+	base := ex.Base
+	if decide != nil {
+		disk.Decide = func(op *simos.Op) string {
+			f := decide(disk, base, op)
+			if f != "" && ex.Fired == "" {
+				ex.Fired = f
+				ex.FiredOp = *op
+			}
+			return f
+		}
+	}
+	hs := &c18Scenario{Flusher: true, ReaderFrom: true, DownFail: -1, ClientFail: -1, URI: sc.Script.URI, Body: string(sc.Script.Body), KnownLen: true,
+		Handler: []c18Op{{Op: "read", N: -1}, {Op: "hdr", K: "Content-Type", V: "text/plain"}, {Op: "write", Data: "handler says ok"}}}
+	obs := &c18HandlerObs{}
+	down, ww := hs.newDown()
+	req := hs.request()
+	req.Header.Set("Content-Type", sc.Script.ContentType)
+	for _, hd := range sc.Script.Headers {
+		if hd.K != "Host" {
+			req.Header.Add(hd.K, hd.V)
+		}
+	}
+	logsBefore := h.DebugBuf.Len()
+	ex.Panic = safely(func() { corazahttp.WrapHandler(h.WAF, hs.handler(obs)).ServeHTTP(ww, req) })
+	disk.Decide = nil
+	r := c18Collect(down, obs)
+	ex.Invoked, ex.Status, ex.Body, ex.ReadErr = obs.Invoked, r.Status, r.Body, obs.ReadErr
+	ex.LogText = h.DebugBuf.String()[logsBefore:]
+	ex.Logs = strings.Count(ex.LogText, "\n")
+	ex.Ops = append([]simos.Op(nil), disk.Ops...)
+	if ex.Fired != "" && ex.FiredOp.Idx < len(ex.Ops) {
+		ex.FiredOp = ex.Ops[ex.FiredOp.Idx]
+	}
+	for _, f := range disk.Files() {
+		if !strings.HasPrefix(f, simos.Root+"/audit/") {
+			ex.Left = append(ex.Left, f)
+		}
+	}
+	if ex.Panic == "" {
+		ex.Probe = runTx(h, sc.Probe)
+	}
+	return ex
+}
+
+func c20HTTP(w *verifrt.World, sc *c20Scenario, res *RunResult) {
+	res.count("middleware_scenarios", 1)
+	base := c20ExecHTTP(w, sc, nil)
+	if base.BuildErr != "" {
+		res.count("config_rejected", 1)
+		return
+	}
+	if base.Panic != "" {
+		res.fail("C20", "panic", "http/fault-free/"+panicSite(base.Panic), "fault-free request through the middleware panicked: %s\n%s", base.Panic, sc.Config)
+		return
+	}
+	probeRef := func() *Outcome {
+		simos.ResetDisk().MkdirAllQuiet(simos.Root + "/upload")
+		simos.Disk().MkdirAllQuiet(simos.Root + "/audit/data")
+		w.PoolPolicy = verifrt.PoolNew
+		h, err := buildWAF(sc.Config)
+		if err != nil {
+			return nil
+		}
+		defer h.Close()
+		return runTx(h, sc.Probe)
+	}()
+	check := func(ex *c20HTTPExec, what, fp string) {
+		var bad []string
+		for _, f := range ex.Left {
+			if opRole(f) == "upload" && (sc.KeepMode == "On" || sc.KeepMode == "RelevantOnly") {
+				continue
+			}
+			if ex.Fired == "remove-error" && ex.FiredOp.Path == f {
+				continue
+			}
+			bad = append(bad, f)
+		}
+		if len(bad) > 0 {
+			res.fail("C20", "temp-file-left", "http/"+fp+"/"+opRole(bad[0]), "%s (through the middleware): files created for the request remain: %v (keep-files %s)\nconfiguration:\n%s", what, bad, sc.KeepMode, sc.Config)
+		}
+		if ex.Probe != nil && probeRef != nil {
+			if clause, detail := c05Diff(probeRef, ex.Probe); clause != "" {
+				res.fail("C20", "recycled-object-differs", "http/"+fp+"/"+clause, "%s (through the middleware): a probe on the recycled object differs from a fresh WAF: %s", what, detail)
+			}
+		}
+	}
+	check(base, "fault-free request", "fault-free")
+	txOps := base.Ops[base.Base:]
+	if len(txOps) > 0 {
+		res.Nontrivial = true
+	}
+	for i, op := range txOps {
+		for _, kind := range c20FaultKinds(op.Kind) {
+			idx, k := i, kind
+			ex := c20ExecHTTP(w, sc, func(d *simos.FS, b int, o *simos.Op) string {
+				if o.Idx-b == idx && faultApplies(k, o.Kind) {
+					return k
+				}
+				return ""
+			})
+			res.count("fault_points", 1)
+			if ex.BuildErr != "" || ex.Fired == "" {
+				continue
+			}
+			res.count("fault_"+k, 1)
+			res.count("middleware_fault_points", 1)
+			role := opRole(ex.FiredOp.Path)
+			what := fmt.Sprintf("disk operation %d (%s %s) failing with %s", idx, op.Kind, op.Path, k)
+			if ex.Panic != "" {
+				res.fail("C20", "panic", "http/"+k+"/"+role+"/"+panicSite(ex.Panic), "%s (through the middleware): panic: %s", what, ex.Panic)
+				continue
+			}
+			if k == "short-read" {
+				if ex.Status != base.Status || ex.Body != base.Body || ex.Invoked != base.Invoked {
+					res.fail("C20", "short-read-changes-outcome", "http/"+role, "%s (through the middleware): client received %d %q, fault-free %d %q", what, ex.Status, ex.Body, base.Status, base.Body)
+				}
+			} else if !c20NewLogLine(base.LogText, ex.LogText) && ex.Status == base.Status && ex.Invoked == base.Invoked && !ex.ReadErr {
+				res.fail("C20", "failure-swallowed", "http/"+k+"/"+role, "%s (through the middleware): nothing was logged and the client received the same response (%d) as without the failure\nlog with fault: %q\nlog without: %q\nops: %v\nconfiguration:\n%s\nrequest body kind %s, %d bytes", what, ex.Status, ex.LogText, base.LogText, ex.Ops[ex.Base:], sc.Config, sc.Script.BodyKind, len(sc.Script.Body))
+			}
+			check(ex, what, k)
+		}
+	}
+}
+
+var c20LogNoise = regexp.MustCompile(`^\S+ \S+ |tx_id="[^"]*" ?`)
+
+// c20NewLogLine reports whether the faulty run logged a line (timestamps and
+// transaction ids stripped) that the fault-free run did not.
+func c20NewLogLine(base, got string) bool {
+	seen := map[string]int{}
+	for _, l := range strings.Split(base, "\n") {
+		seen[c20LogNoise.ReplaceAllString(l, "")]++
+	}
+	for _, l := range strings.Split(got, "\n") {
+		k := c20LogNoise.ReplaceAllString(l, "")
+		if k == "" {
+			continue
+		}
+		if seen[k] == 0 {
+			return true
+		}
+		seen[k]--
+	}
+	return false
 }
